@@ -34,12 +34,16 @@ EXTENDS UsbSerial, CRC, LineCode
 
 VARIABLES sol,      \* "none" | "in" (answer to an IN token owed/allowed) | "hs" (handshake for a data packet)
           tok,      \* "none" | "out" | "setup": standing OUT/SETUP token addressed to this device
-          pk        \* device packets at the PHY boundary since the last transaction record: <<[pid, payload]>>
+          pk,       \* device packets at the PHY boundary since the last transaction record: <<[pid, payload]>>
+          bus       \* bus-level state: [spd |-> "fs"|"hs" (negotiated speed), susp |-> suspended, att |-> VBUS present and
+                    \*  connected, fresh |-> a bus reset happened and no configuration was set since (data toggles unspecified),
+                    \*  needrst |-> the host must reset the bus before the next transaction (after re-attachment)]
 
-wvars == <<sol, tok, pk>>
-svars == <<vars, sol, tok, pk>>
+wvars == <<sol, tok, pk, bus>>
+svars == <<vars, sol, tok, pk, bus>>
 
-WInit == sol = "none" /\ tok = "none" /\ pk = <<>>
+WInit == /\ sol = "none" /\ tok = "none" /\ pk = <<>>
+         /\ bus = [spd |-> "fs", susp |-> FALSE, att |-> TRUE, fresh |-> FALSE, needrst |-> FALSE]
 SInit == Init /\ WInit
 
 -----------------------------------------------------------------------------
@@ -69,7 +73,13 @@ HostPkt(h) ==
        /\ sol' = IF mine /\ h.pid = "IN" THEN "in"
                  ELSE IF h.kind = "data" /\ tok # "none" /\ h.crc_ok THEN "hs"
                  ELSE "none"
-       /\ UNCHANGED <<pk, vars>>
+       /\ UNCHANGED <<pk, bus, vars>>
+
+\* Env legality of talking to the device at all: attached, not suspended, reset after every re-attachment
+HostPktEnv(h) == IF ~bus.att THEN "env_packet_while_detached"
+                 ELSE IF bus.susp THEN "env_packet_while_suspended"
+                 ELSE IF bus.needrst THEN "env_packet_before_reset_after_attach"
+                 ELSE "ok"
 
 -----------------------------------------------------------------------------
 (* A packet the device handed to its PHY.                                        *)
@@ -136,7 +146,7 @@ DevPkt(c, d) ==
         p == w[1] % 16
     IN /\ pk' = Append(pk, [pid |-> p, payload |-> IF p \in DataPids THEN SubSeq(w, 2, Len(w) - 2) ELSE <<>>])
        /\ sol' = "none"
-       /\ UNCHANGED <<tok, vars>>
+       /\ UNCHANGED <<tok, bus, vars>>
 
 -----------------------------------------------------------------------------
 (* The transaction records of UsbSerial must report exactly what crossed the PHY *)
@@ -177,11 +187,59 @@ QuietFail(a, isIn) ==
     IF a = addr /\ isIn THEN (IF pk = <<Hs(PID_NAK)>> THEN "ok" ELSE "idle_interrupt_endpoint_did_not_nak")
     ELSE IF pk = <<>> THEN "ok" ELSE "answered_packet_not_addressed_to_it"
 
-Consumed == pk' = <<>> /\ UNCHANGED <<sol, tok>>
+Consumed == pk' = <<>> /\ UNCHANGED <<sol, tok, bus>>
+
+-----------------------------------------------------------------------------
+(* Bus events at line-state level (C08 "a bus reset returns the device to address 0 and configuration 0", C19 in           *)
+(* composition).  The host drives them through the PHY's line-state reports (RxCmds); the record carries what the bench     *)
+(* saw of the device during the event: r.chirp = clocks of NOPID transmission (chirp K: all-zero data, ended by STP with    *)
+(* 0xFF), r.fc = the PHY's Function Control register after the event (transceiver / termination the device selected).       *)
+FC_FS == 69      \* XcvrSelect = 01, TermSelect = 1, OpMode = 00, SuspendM = 1   [ULPI 1.1 Table 7 / UTMI+]
+FC_HS == 64      \* XcvrSelect = 00, TermSelect = 0, OpMode = 00, SuspendM = 1
+
+\* r = [from |-> "fs"|"hs", hs_host |-> host answers the chirp with >= 3 K-J pairs, chirp, chirp_nonzero, chirp_stp, fc]
+ResetFail(r) ==
+    IF ~bus.att THEN "env_reset_while_detached"
+    ELSE IF pk # <<>> THEN "packet_transmitted_during_bus_reset"
+    ELSE IF r.chirp = 0 THEN "high_speed_capable_device_did_not_chirp"            \* [USB2 7.1.7.5]
+    ELSE IF r.chirp_nonzero # 0 \/ r.chirp_stp # 255 THEN "chirp_is_not_a_nopid_transmission_of_zeros_ended_by_ff"
+    ELSE IF r.hs_host /\ r.fc # FC_HS THEN "not_high_speed_after_answered_chirp"
+    ELSE IF ~r.hs_host /\ r.fc # FC_FS THEN "not_full_speed_after_unanswered_chirp"
+    ELSE "ok"
+
+\* every bus reset returns the device to address 0 / configuration 0 (whatever state -- active, suspended, full or high
+\* speed -- it arrives in); the data toggles are unspecified until the device is configured again
+BusReset(r) ==
+    /\ addr' = 0 /\ cfg' = 0
+    /\ bus' = [spd |-> IF r.hs_host THEN "hs" ELSE "fs", susp |-> FALSE, att |-> TRUE, fresh |-> TRUE, needrst |-> FALSE]
+    /\ sol' = "none" /\ tok' = "none" /\ pk' = <<>>
+    /\ UNCHANGED <<outTog, inTog, inFlight, zlpOwed, hostWritten, rxDelivered, txOffered, hostRead, known>>
+
+\* suspend (>= 3 ms idle), resume (K), VBUS loss / return, soft disconnect / connect: none of them is a bus reset
+BusEventFail(r) ==
+    IF pk # <<>> THEN "packet_transmitted_during_bus_event"
+    ELSE IF r.ev = "suspend" /\ (bus.susp \/ ~bus.att) THEN "env_suspend_of_suspended_or_detached_device"
+    ELSE IF r.ev = "resume" /\ ~bus.susp THEN "env_resume_of_active_device"
+    ELSE IF r.ev = "resume" /\ r.fc # (IF bus.spd = "hs" THEN FC_HS ELSE FC_FS) THEN "speed_not_restored_by_resume"
+    ELSE "ok"
+
+BusEvent(r) ==
+    /\ bus' = CASE r.ev = "suspend" -> [bus EXCEPT !.susp = TRUE]
+                [] r.ev = "resume"  -> [bus EXCEPT !.susp = FALSE]
+                [] r.ev \in {"vbus_off", "disconnect"} -> [bus EXCEPT !.att = FALSE, !.susp = FALSE, !.needrst = TRUE, !.spd = "fs"]
+                [] r.ev \in {"vbus_on", "connect"} -> [bus EXCEPT !.att = TRUE]
+                [] OTHER -> bus
+    /\ UNCHANGED <<sol, tok, pk, vars>>
+
+\* bulk traffic for the device itself between a bus reset and the next SET_CONFIGURATION is outside the Env (toggles)
+BulkEnv(a) == IF bus.fresh /\ a = addr THEN "env_bulk_traffic_before_configuration_after_reset" ELSE "ok"
+\* a completed SET_CONFIGURATION ends the `fresh` period
+AfterCtl(a, req, outcome) ==
+    IF a = addr /\ req.type = 0 /\ req.request = 9 /\ ~req.dirin /\ outcome = "ok" THEN [bus EXCEPT !.fresh = FALSE] ELSE bus
 
 -----------------------------------------------------------------------------
 (* Prop (state invariants of the composition) *)
-WireTypeOK == /\ sol \in {"none", "in", "hs"} /\ tok \in {"none", "out", "setup"}
+WireTypeOK == /\ sol \in {"none", "in", "hs"} /\ tok \in {"none", "out", "setup"} /\ bus.spd \in {"fs", "hs"}
               /\ \A i \in 1..Len(pk) : pk[i].pid \in DataPids \cup {PID_ACK, PID_NAK, PID_STALL, PID_NYET}
 \* between two transaction records the device transmitted at most what one control transfer can hold, and a standing
 \* OUT/SETUP token never coexists with a solicitation (the device answers the data packet, not the token)
